@@ -586,9 +586,116 @@ G7(u_) == UNION { {
    \cup { CaseOf(<<Module("a", <<>>, <<Cont("top", <<Cont("old", s1 \o <<Cont("inner", s2 \o <<Leaf("x", <<>>)>>)>>)>>), Augment(<<"", "top", "", "old", "", "inner">>, sa \o <<Leaf("n", <<>>)>>)>>)>>, {}, "none")
            : s1 \in St3, s2 \in St3, sa \in Stats }
 
+\* ---------------------------------------------------------------- round 6
+\* the same statement list with every shorthand case written out (schema node paths go through the implicit case)
+RECURSIVE Explicit(_)
+Explicit(stmts) == [i \in 1..Len(stmts) |-> [stmts[i] EXCEPT !.subs = IF stmts[i].kw = "choice" THEN WrapShort(Explicit(@)) ELSE Explicit(@)]]
+
+\* G8: presence of EVERY kind of child: a disabled (and an enabled) if-feature written on it, and deviate not-supported
+\* naming it - containers, presence containers, lists, every leaf a list names in its key (first, middle, last; single
+\* key; key of an inner list), leaves named in unique (directly and through a container), leaf-lists, choices, cases,
+\* the default case, shorthand case members, leaves at depth 1..4 - where the nodes are written in place (in a
+\* container, at the top of the module), come from a grouping, or come from an augment of another module.
+G8Kids == << Cont("c", <<Leaf("cl", <<>>), Cont("cc", <<Leaf("ccl", <<>>)>>)>>),
+             Cont("p", <<P("presence", "here"), Leaf("pl", <<>>)>>),
+             St("list", <<"l">>, <<St("key", <<"k1", "k2", "k3">>, <<>>), St("unique", <<"v", "lc/u">>, <<>>), Leaf("k1", <<>>), Leaf("k2", <<>>), Leaf("k3", <<>>),
+                                   Leaf("v", <<>>), Leaf("w", <<>>), Cont("lc", <<Leaf("u", <<>>)>>), List("in", "ik", <<Leaf("iv", <<>>)>>)>>),
+             List("s", "sk", <<Leaf("sv", <<>>)>>),
+             LeafList("ll", <<>>),
+             Choice("ch", <<P("default", "ca"), Case("ca", <<Leaf("q", <<>>)>>), Leaf("sh", <<>>), Case("cb", <<Leaf("r", <<>>), Cont("rc", <<Leaf("rl", <<>>)>>)>>)>>),
+             Leaf("lf", <<>>) >>
+\* where the nodes live: [m: module set as a function of the node list, pre: schema path prefix of the nodes, fm: module of the feature f]
+G8Site(k, kids) ==
+  CASE k = 1 -> << Module("a", <<>>, <<Feature("f", <<>>), Cont("top", kids)>>) >>
+    [] k = 2 -> << Module("a", <<>>, <<Feature("f", <<>>)>> \o kids) >>
+    [] k = 3 -> << Module("a", <<>>, <<Feature("f", <<>>), Grouping("g", kids), Cont("top", <<Uses("", "g", <<>>)>>)>>) >>
+    [] k = 4 -> << Module("a", <<>>, <<Cont("top", <<Leaf("t", <<>>)>>)>>), Module("c", <<"a">>, <<Feature("f", <<>>), Augment(<<"a", "top">>, kids)>>) >>
+G8Pre(k) == IF k = 2 THEN <<>> ELSE <<"a", "top">>
+G8NodeMod(k) == IF k = 4 THEN "c" ELSE "a"
+G8Dev(k, devs) == Module("d", IF k = 4 THEN <<"a", "c">> ELSE <<"a">>, devs)
+G8(u_) ==
+     \* if-feature on the node at every path of the source, feature off / on
+     UNION { { CaseOf(G8Site(k, AddAt(G8Kids, p, IfF("", "f"))), e, "inline") : e \in {{}, {<<G8NodeMod(k), "f">>}} } : p \in NodePaths(G8Kids, 4), k \in 1..4 }
+     \* if-feature on every non-empty subset of the keys
+\cup UNION { { CaseOf(G8Site(1, [i \in 1..Len(G8Kids) |-> IF G8Kids[i].arg[1] # "l" THEN G8Kids[i] ELSE
+                                  [G8Kids[i] EXCEPT !.subs = [j \in 1..Len(@) |-> IF @[j].kw = "leaf" /\ @[j].arg[1] \in ks THEN [@[j] EXCEPT !.subs = @ \o <<IfF("", "f")>>] ELSE @[j]]]]), e, "none")
+               : e \in {{}, {<<"a", "f">>}} } : ks \in (SUBSET {"k1", "k2", "k3"}) \ {{}} }
+     \* deviate not-supported naming the node at every schema node path
+\cup { CaseOf(G8Site(k, G8Kids) \o <<G8Dev(k, <<Deviation(G8Pre(k) \o Abs(p, G8NodeMod(k)), <<Deviate("not-supported", <<>>)>>)>>)>>, {}, "edit") : p \in NodePaths(Explicit(G8Kids), 5), k \in 1..4 }
+     \* two keys (and a key and a unique leaf) at once
+\cup { CaseOf(G8Site(1, G8Kids) \o <<DevMod(<<Deviation(<<"a", "top", "a", "l", "a", n1>>, <<Deviate("not-supported", <<>>)>>),
+                                               Deviation(<<"a", "top", "a", "l", "a", n2>>, <<Deviate("not-supported", <<>>)>>)>>)>>, {}, "edit")
+       : n1 \in {"k1", "k3"}, n2 \in {"k2", "v", "w"} }
+
+\* G9: deviate delete / add / replace naming the first, a middle or the last of SEVERAL must / unique statements of the
+\* target (leaf, leaf-list, container, list; a target whose musts come from a grouping plus a refine; a target that an
+\* augment introduces): the result is the edited source - the named statement goes, the others stay.
+G9Musts == << P("must", "a = 1"), P("must", "b = 2"), P("must", "c = 3") >>
+G9Uniq == << St("unique", <<"v">>, <<>>), St("unique", <<"w", "x">>, <<>>), St("unique", <<"x">>, <<>>) >>
+G9Targets == << Leaf("lf", G9Musts),
+                LeafList("ll", <<G9Musts[1], P("max-elements", "4"), G9Musts[2], G9Musts[3]>>),
+                Cont("ct", <<G9Musts[1], Leaf("z", <<>>), G9Musts[2], G9Musts[3]>>),
+                List("li", "k", <<G9Uniq[1], G9Musts[1], Leaf("v", <<>>), G9Uniq[2], Leaf("w", <<>>), G9Musts[2], Leaf("x", <<>>), G9Musts[3], G9Uniq[3]>>) >>
+G9Base == Module("a", <<>>, <<Grouping("g", <<Leaf("gl", <<G9Musts[1], G9Musts[2]>>)>>),
+                              Cont("top", G9Targets \o <<Uses("", "g", <<Refine(<<"", "gl">>, <<G9Musts[3]>>)>>)>>),
+                              Augment(<<"", "top">>, <<Leaf("al", G9Musts)>>)>>)
+G9Pool(t) == IF t = "li" THEN G9Musts \o G9Uniq ELSE G9Musts
+G9Edits(pool) ==
+     { <<Deviate("delete", <<pool[i]>>)>> : i \in 1..Len(pool) }
+\cup ({ <<Deviate("delete", <<pool[i], pool[j]>>)>> : i \in 1..Len(pool), j \in {1, 3} } \ { <<Deviate("delete", <<pool[i], pool[i]>>)>> : i \in 1..Len(pool) })
+\cup { <<Deviate("delete", <<pool[1], pool[2], pool[3]>>)>>, <<Deviate("delete", <<pool[3], pool[2], pool[1]>>)>>,
+       <<Deviate("delete", <<P("must", "b = 3")>>)>>, <<Deviate("delete", <<pool[2], P("must", "nope")>>)>>,
+       <<Deviate("add", <<P("must", "d = 4")>>)>>, <<Deviate("add", <<P("must", "d = 4"), P("must", "e = 5")>>)>>,
+       <<Deviate("replace", <<pool[2]>>)>>, <<Deviate("replace", <<pool[Len(pool)]>>)>>,
+       <<Deviate("delete", <<pool[2]>>), Deviate("add", <<P("must", "d = 4")>>)>>,
+       <<Deviate("add", <<P("must", "d = 4")>>), Deviate("delete", <<pool[Len(pool)]>>)>>,
+       <<Deviate("delete", <<pool[1]>>), Deviate("delete", <<pool[3]>>)>> }
+G9(u_) ==
+     UNION { { CaseOf(<<G9Base, DevMod(<<Deviation(<<"a", "top", "a", t>>, ed)>>)>>, {}, "edit") : ed \in G9Edits(G9Pool(t)) } : t \in {"lf", "ll", "ct", "li", "gl", "al"} }
+\cup { CaseOf(<<G9Base, DevMod(<<Deviation(<<"a", "top", "a", t>>, <<Deviate("delete", <<G9Musts[i]>>)>>), Deviation(<<"a", "top", "a", t>>, <<Deviate("delete", <<G9Musts[j]>>)>>)>>)>>, {}, "edit")
+       : t \in {"lf", "li"}, i \in 1..3, j \in {1, 3} }
+\cup { CaseOf(<<G9Base, DevMod(<<Deviation(<<"a", "top", "a", "li">>, <<Deviate("add", <<St("unique", <<"k", "w">>, <<>>)>>)>>)>>)>>, {}, "edit"),
+       CaseOf(<<G9Base, DevMod(<<Deviation(<<"a", "top", "a", "li">>, <<Deviate("delete", <<G9Uniq[2]>>), Deviate("add", <<St("unique", <<"w">>, <<>>)>>)>>)>>)>>, {}, "edit") }
+
+\* F15: a uses at every depth below an augment: written directly in the augment, inside a container / list /
+\* choice-case that the augment adds, two levels down, next to siblings, with refine and a further augment on the deep
+\* uses, through a nested grouping - for an augment inside a uses (in a container, at the top, inside a module-level
+\* augment, inside a grouping, of a grouping of another module) and for a module-level augment (same module, submodule,
+\* another module), into a container, a container two steps down, a list, a case and a choice.
+F15HS == << Grouping("h", <<Leaf("hh", <<P("default", "d")>>), Cont("hc", <<Leaf("hl", <<>>)>>)>>),
+            Grouping("h2", <<Leaf("deep", <<>>), Uses("", "h3", <<>>)>>),
+            Grouping("h3", <<LeafList("more", <<>>)>>) >>
+F15G == Grouping("g", <<Cont("c", <<Leaf("x", <<>>), Cont("cc", <<Leaf("y", <<>>)>>)>>), List("l", "k", <<>>), Choice("ch", <<Case("ca", <<Leaf("q", <<>>)>>)>>)>>)
+F15Paths == { <<"", "c">>, <<"", "c", "", "cc">>, <<"", "l">>, <<"", "ch", "", "ca">>, <<"", "ch">> }
+F15Kids(hp) == {
+   << Uses(hp, "h", <<>>) >>,
+   << Cont("n", <<Uses(hp, "h", <<>>)>>) >>,
+   << List("n", "nk", <<Uses(hp, "h", <<>>)>>) >>,
+   << Choice("n", <<Case("nc", <<Uses(hp, "h", <<>>)>>), Leaf("ns", <<>>)>>) >>,
+   << Cont("n", <<Cont("n2", <<Uses(hp, "h", <<>>)>>)>>) >>,
+   << Leaf("a", <<>>), Cont("n", <<Leaf("a", <<>>), Uses(hp, "h2", <<>>), Leaf("z", <<>>)>>), Leaf("z", <<>>) >>,
+   << Cont("n", <<Uses(hp, "h", <<Refine(<<"", "hh">>, <<P("default", "r")>>), Augment(<<"", "hc">>, <<Leaf("extra", <<>>), Cont("n3", <<Uses(hp, "h3", <<>>)>>)>>)>>)>>) >>,
+   << Case("nc", <<Cont("n", <<Uses(hp, "h", <<>>)>>)>>) >>,
+   << Uses(hp, "h", <<>>), Cont("n", <<Uses(hp, "h2", <<>>)>>) >>,
+   << List("n", "nk", <<Cont("n2", <<List("n3", "nk3", <<Uses(hp, "h2", <<>>)>>)>>)>>) >> }
+F15Sets(p, K, KB) == {
+   << Module("a", <<>>, F15HS \o <<F15G, Cont("top", <<Uses("", "g", <<Augment(p, K)>>)>>)>>) >>,
+   << Module("a", <<>>, F15HS \o <<F15G, Uses("", "g", <<Augment(p, K)>>)>>) >>,
+   << Module("a", <<>>, F15HS \o <<F15G, Cont("top", <<Cont("in", <<>>)>>), Augment(<<"", "top", "", "in">>, <<Uses("", "g", <<Augment(p, K)>>)>>)>>) >>,
+   << Module("a", <<>>, F15HS \o <<F15G, Grouping("g0", <<Cont("w", <<Uses("", "g", <<Augment(p, K)>>)>>)>>), Cont("top", <<Uses("", "g0", <<>>)>>)>>) >>,
+   << Module("b", <<>>, <<F15G>>), Module("a", <<"b">>, F15HS \o <<Cont("top", <<Uses("b", "g", <<Augment(p, K)>>)>>)>>) >>,
+   << Module("b", <<>>, F15HS \o <<F15G>>), Module("a", <<"b">>, <<Cont("top", <<Uses("b", "g", <<Augment(p, KB)>>)>>)>>) >>,
+   << Module("a", <<>>, F15HS \o <<F15G, Cont("top", <<Uses("", "g", <<>>)>>), Augment(<<"", "top">> \o p, K)>>) >>,
+   << Submodule("as", "a", <<>>, F15HS \o <<Augment(Abs(<<"", "top">> \o p, "a"), K)>>), Module("a", <<>>, <<Include("as"), F15G, Cont("top", <<Uses("", "g", <<>>)>>)>>) >>,
+   << Module("a", <<>>, <<F15G, Cont("top", <<Uses("", "g", <<>>)>>)>>), Module("c", <<"a">>, F15HS \o <<Augment(Abs(<<"", "top">> \o p, "a"), K)>>) >> }
+RECURSIVE Reprefix(_, _)      \* the same statements with every uses written with prefix hp
+Reprefix(stmts, hp) == [i \in 1..Len(stmts) |-> [stmts[i] EXCEPT !.arg = IF stmts[i].kw = "uses" THEN <<hp, @[2]>> ELSE @, !.subs = Reprefix(@, hp)]]
+F15(PS) == UNION { { CaseOf(m, {}, "inline") : m \in F15Sets(p, K, Reprefix(K, "b")) } : p \in PS, K \in F15Kids("") }
+
 Family(name) == CASE name = "F1" -> F1(Bodies(0)) [] name = "F1q" -> F1(BodiesA(0)) [] name = "F2" -> F2(0) [] name = "F3" -> F3(0) [] name = "F4" -> F4(0) [] name = "F5" -> F5(0) [] name = "F6" -> F6(F6Extras(0)) [] name = "F6q" -> F6({<<>>, <<P("when", "1 = 1")>>}) [] name = "F7" -> F7(0) [] name = "F8" -> F8(0)
                   [] name = "G1c" -> G1K("container") [] name = "G1l" -> G1K("list") [] name = "G1h" -> G1K("choice")
                   [] name = "G2a" -> G2D(1) [] name = "G2b" -> G2D(2) [] name = "G2c" -> G2D(3) [] name = "G2d" -> G2D(4) [] name = "G2e" -> G2D(5)
                   [] name = "G2X" -> G2X(0) [] name = "G2S" -> G2S(0) [] name = "G3" -> G3(0) [] name = "G4" -> G4(0) [] name = "G4X" -> G4X(0)
                   [] name = "H1q" -> H1(7) [] name = "H1" -> H1(11) [] name = "H2" -> H2(0) [] name = "H3" -> H3(0) [] name = "H4" -> H4(0) [] name = "F9" -> F9(0) [] name = "F10" -> F10(0) [] name = "F11" -> F11(0) [] name = "F12" -> F12(0) [] name = "G5" -> G5(0) [] name = "G6" -> G6(0) [] name = "F13" -> F13(0) [] name = "F14" -> F14(0) [] name = "G7" -> G7(0) [] name = "G2T" -> G2T(0) [] name = "H5" -> H5(0) [] name = "H6" -> H6(0)
+                  [] name = "G8" -> G8(0) [] name = "G9" -> G9(0) [] name = "F15" -> F15(F15Paths) [] name = "F15q" -> F15({<<"", "c">>, <<"", "c", "", "cc">>, <<"", "ch", "", "ca">>})
 =============================================================================
